@@ -7,7 +7,7 @@ user-controlled slot of both generators called directly, and a sample goes throu
 file names, colour strings that still parse, save_report on single pairs and bulk lists).  The written report is tokenised with
 html.parser; TrReport.tla judges structure = benign structure and slot text verbatim.
 """
-import os, sys, random, json, tempfile, shutil, io, contextlib
+import re, os, sys, random, json, tempfile, shutil, io, contextlib
 from html.parser import HTMLParser
 sys.path.insert(0, os.path.dirname(os.path.abspath(__file__)))
 import vlib, clilib
@@ -170,13 +170,35 @@ def sid(seq):
     return _IDS.setdefault(tuple(seq), len(_IDS) + 1)
 
 
+def source_dictionary():
+    """tokens from the string constants of the report generators' source (ast): candidate placeholders / markers"""
+    import ast
+    vlib.use_repo()
+    import cm_colors.cli.html_report as m1, cm_colors.core.visualiser as m2
+    words = set()
+    for mod in (m1, m2):
+        try:
+            tree = ast.parse(open(mod.__file__, encoding="utf-8").read())
+        except Exception:
+            continue
+        for node in ast.walk(tree):
+            if isinstance(node, ast.Constant) and isinstance(node.value, str):
+                for w in re.findall(r"[A-Za-z_@$%#!\[\]{}<>/-][A-Za-z0-9_@$%#!\[\]{}<>/:.-]{3,39}", node.value):
+                    # keep what looks like a marker or placeholder rather than prose / CSS
+                    if re.search(r"__|\{\{|\}\}|%%|\$\{|<!--|-->|@@|\[\[|##|PLACEHOLDER|MARK|TOKEN|SLOT", w) or (w.isupper() and len(w) >= 5):
+                        words.add(w.strip(".:"))
+    return sorted(words)[:400]
+
+
 def observe(job):
     gen, slot, sym = job[:3]
     variant = (sum(sym) + len(sym) + (job[3] if len(job) > 3 else 0)) % VARIANTS
     slots = CLI_SLOTS if gen == "cli" else API_SLOTS
     text = "".join(SIGMA[k - 1] for k in sym)
     wrap = job[4] if len(job) > 4 else 0
-    if wrap:
+    if len(job) > 5 and job[5] is not None:
+        text, wrap = job[5], -1          # a literal text (dictionary word, long repetition): Given = this text
+    if wrap > 0:
         # the string sits INSIDE something that has the overall shape of a colour value (what a "looks like a colour, no need
         # to escape" shortcut would let through): the whole value is the user's text
         text = WRAPS[wrap] % text
@@ -419,6 +441,23 @@ def main():
         g_, sl_ = colour_slots[wj % len(colour_slots)]
         jobs.append((g_, sl_, s_, wj, 1 + wj % (len(WRAPS) - 1)))
         wj += 1
+    # (a) dictionary: tokens that occur in the SOURCE of the two report generators (placeholders, markers, template words) used as
+    #     user text - a late search-and-replace over the finished page would find them; (b) long texts: a short hostile string
+    #     repeated until it holds dozens of metacharacters (an escaper with a budget runs out)
+    words = source_dictionary()
+    rep.extra["dictionary_words_from_generator_sources"] = len(words)
+    allslots = [("cli", s_) for s_ in sorted(CLI_SLOTS)] + [("api", s_) for s_ in sorted(API_SLOTS)]
+    for j, w in enumerate(words):
+        g_, sl_ = allslots[j % len(allslots)]
+        jobs.append((g_, sl_, (), j, 0, w))
+        if t == "thorough":
+            for g2, s2 in allslots:
+                jobs.append((g2, s2, (), j, 0, w))
+    for j, s_ in enumerate([x for x in short if len(x) == 2][:: (5 if t == "quick" else 1)]):
+        g_, sl_ = allslots[j % len(allslots)]
+        base = "".join(SIGMA[k - 1] for k in s_)
+        jobs.append((g_, sl_, (), j, 0, base * 12))
+        jobs.append((g_, sl_, (), j, 0, "<>&\"'" * 5 + base))
     res = vlib.pool_map(observe, jobs, chunksize=16)
     evs = [e for r_ in res for e in r_]
     evs += e2e(rnd, 60 if t == "quick" else 600)
